@@ -140,7 +140,11 @@ def gen_cases(tier, seed):
             extra += ["--reflink", r.choice(["never", "auto"])]
         if r.random() < 0.15:
             extra.append("--no-progress")
-        dsp = r.choice(["dst", "dst", "dst/", "./dst", "@ROOT@/dst", "elsewhere/../dst"])
+        # (the last spelling goes through a link to a directory elsewhere: `elsewhere/up/..` is the sandbox root only for who resolves
+        # the link; read as text it would be `elsewhere`, where there is no `dst`)
+        dsp = r.choice(["dst", "dst", "dst/", "./dst", "@ROOT@/dst", "elsewhere/../dst", "elsewhere/up/../dst", "elsewhere/up/../dst/"])
+        if "elsewhere/up" in dsp:
+            pre = pre + [{"p": "upstairs", "k": "d"}, {"p": "elsewhere/up", "k": "l", "target": "../upstairs"}]
         form = r.choice(["plain", "plain", "plain", "target-directory", "glob"])
         srcargs = list(names)
         if form == "glob":
